@@ -61,6 +61,11 @@ pub struct SearchOut {
     pub path: Option<Vec<(usize, usize, u32)>>,
     pub path_nodes: Vec<usize>,
     pub path_len: usize,
+    pub first_node: Option<usize>,
+    pub last_node: Option<usize>,
+    pub first_edge: Option<(usize, usize, u32)>,
+    pub last_edge: Option<(usize, usize, u32)>,
+    pub views: String,
     pub list_nodes: Vec<usize>,
     pub list_edges: Vec<(usize, usize, u32)>,
     pub trace: Vec<(usize, usize, u32)>,
@@ -70,7 +75,16 @@ pub fn show_search(spec: &SearchSpec, o: &SearchOut) -> String {
     let mut s = match spec.mode.as_str() {
         "node" => format!("node={:?}", o.node),
         "path" | "cycle" => match &o.path {
-            Some(p) => format!("path={} nodes={}", fmt_edges(p), fmt_keys(&o.path_nodes)),
+            Some(p) => format!(
+                "path={} nodes={} first={} last={} fe={} le={} views={}",
+                fmt_edges(p),
+                fmt_keys(&o.path_nodes),
+                o.first_node.map(|k| k.to_string()).unwrap_or("None".into()),
+                o.last_node.map(|k| k.to_string()).unwrap_or("None".into()),
+                fmt_edges(&o.first_edge.iter().cloned().collect::<Vec<_>>()),
+                fmt_edges(&o.last_edge.iter().cloned().collect::<Vec<_>>()),
+                o.views
+            ),
             None => "path=None".to_string(),
         },
         "nodes" => format!("nodes={}", fmt_keys(&o.list_nodes)),
@@ -120,6 +134,29 @@ macro_rules! with_method {
     }};
 }
 
+/// everything a `Path` shows: `to_vec_edges`, `to_vec_nodes`, `len`, the first/last accessors (read through the
+/// `Edge` accessors `source`/`target`/`value`/`reverse`), and whether `iter_edges`, `iter_nodes` and `Index` agree with them
+macro_rules! fill_path {
+    ($out:expr, $p:ident) => {{
+        let edges: Vec<(usize, usize, u32)> = $p.to_vec_edges().iter().map(|Edge(u, v, e)| (*u.key(), *v.key(), *e)).collect();
+        let nodes: Vec<usize> = $p.to_vec_nodes().iter().map(|n| *n.key()).collect();
+        $out.path_len = $p.len();
+        $out.first_node = $p.first_node().map(|n| *n.key());
+        $out.last_node = $p.last_node().map(|n| *n.key());
+        $out.first_edge = $p.first_edge().map(|e| (*e.source().key(), *e.target().key(), *e.value()));
+        $out.last_edge = $p.last_edge().map(|e| {
+            let r = e.reverse();
+            (*r.target().key(), *r.source().key(), *r.value())
+        });
+        let ie: Vec<(usize, usize, u32)> = $p.iter_edges().map(|Edge(u, v, e)| (*u.key(), *v.key(), e)).collect();
+        let inn: Vec<usize> = $p.iter_nodes().map(|n| *n.key()).collect();
+        let ix: Vec<(usize, usize, u32)> = (0..edges.len()).map(|i| (*$p[i].0.key(), *$p[i].1.key(), $p[i].2)).collect();
+        $out.views = if ie == edges && ix == edges && inn == nodes { "ok".into() } else { format!("iter_edges={:?};index={:?};iter_nodes={:?}", ie, ix, inn) };
+        $out.path = Some(edges);
+        $out.path_nodes = nodes;
+    }};
+}
+
 macro_rules! run_search_modes {
     ($spec:expr, $out:expr) => {
         macro_rules! run {
@@ -130,16 +167,12 @@ macro_rules! run_search_modes {
                     }
                     "path" => {
                         if let Some(p) = $bb.search_path() {
-                            $out.path = Some(p.to_vec_edges().iter().map(|Edge(u, v, e)| (*u.key(), *v.key(), *e)).collect());
-                            $out.path_nodes = p.to_vec_nodes().iter().map(|n| *n.key()).collect();
-                            $out.path_len = p.len();
+                            fill_path!($out, p);
                         }
                     }
                     _ => {
                         if let Some(p) = $bb.search_cycle() {
-                            $out.path = Some(p.to_vec_edges().iter().map(|Edge(u, v, e)| (*u.key(), *v.key(), *e)).collect());
-                            $out.path_nodes = p.to_vec_nodes().iter().map(|n| *n.key()).collect();
-                            $out.path_len = p.len();
+                            fill_path!($out, p);
                         }
                     }
                 }
@@ -165,7 +198,7 @@ macro_rules! run_order_modes {
 macro_rules! kind_search {
     (di) => {
         pub fn do_search(st: &St, spec: &SearchSpec, hook: Option<&dyn Fn(usize, (usize, usize, u32))>) -> SearchOut {
-            let mut out = SearchOut { node: None, path: None, path_nodes: vec![], path_len: 0, list_nodes: vec![], list_edges: vec![], trace: vec![] };
+            let mut out = SearchOut { node: None, path: None, path_nodes: vec![], path_len: 0, first_node: None, last_node: None, first_edge: None, last_edge: None, views: String::new(), list_nodes: vec![], list_edges: vec![], trace: vec![] };
             let trace: RefCell<Vec<(usize, usize, u32)>> = RefCell::new(vec![]);
             let root = st.node(spec.root).clone();
             let tgt = spec.target;
@@ -216,7 +249,7 @@ macro_rules! kind_search {
     };
     (un) => {
         pub fn do_search(st: &St, spec: &SearchSpec, hook: Option<&dyn Fn(usize, (usize, usize, u32))>) -> SearchOut {
-            let mut out = SearchOut { node: None, path: None, path_nodes: vec![], path_len: 0, list_nodes: vec![], list_edges: vec![], trace: vec![] };
+            let mut out = SearchOut { node: None, path: None, path_nodes: vec![], path_len: 0, first_node: None, last_node: None, first_edge: None, last_edge: None, views: String::new(), list_nodes: vec![], list_edges: vec![], trace: vec![] };
             let trace: RefCell<Vec<(usize, usize, u32)>> = RefCell::new(vec![]);
             let root = st.node(spec.root).clone();
             let tgt = spec.target;
